@@ -790,7 +790,7 @@ func scanFields(buf []byte, i int) (int, []byte, error) {
 			equals++
 
 			// check for "... =123" but allow "a\ =123"
-			if buf[i-1] == ' ' && buf[i-2] != '\\' {
+			if i == start || (buf[i-1] == ' ' && buf[i-2] != '\\') {
 				return i, buf[start:i], fmt.Errorf("missing field key")
 			}
 
